@@ -1091,8 +1091,15 @@ class Grammar(PGFile):
             if isinstance(term.recognizer, StringRecognizer):
                 match = keyword_rec(term.recognizer.value, 0)
                 if match == term.recognizer.value:
+                    # Match the literal text. Word boundary check is valid only
+                    # if the edge of the text is a word character. Otherwise,
+                    # just check that no word character is adjacent.
+                    prefix = r"\b" if re.match(r"\w", match[0]) else r"(?<!\w)"
+                    suffix = r"\b" if re.match(r"\w", match[-1]) else r"(?!\w)"
                     term.recognizer = RegExRecognizer(
-                        rf"\b{match}\b", ignore_case=term.recognizer.ignore_case
+                        f"{prefix}{re.escape(match)}{suffix}",
+                        name=match,
+                        ignore_case=term.recognizer.ignore_case,
                     )
                     term.keyword = True
 
